@@ -17,6 +17,7 @@ Decides:
 Not decided: separation distances, channel-width reasoning, ordering of nudged segments.
 """
 import copy
+import re
 from fractions import Fraction
 
 from ..astq import strip, strip_casts, calls, call_args, call_object, writes, written_field, norm, literal_value, src
@@ -475,6 +476,53 @@ def rule_settings_dirty(chk, prog):
     (r.bad if bad else r.ok)("processTransaction honours the flag", fn.where(), bad or "")
 
 
+def rule_fixed_flag(chk, prog):
+    r = chk.rule("FIXED-ORDER-FLAG", "CmpLineOrder::operator() passes ONE flag (initialised false) to lhs->fixedOrder and rhs->fixedOrder and orders "
+                 "by the fixed segment when either call set it; NudgingShiftSegment::fixedOrder therefore only ever raises its out-parameter "
+                 "(stores `true`, or `flag || x` / `flag |= x`) -- a plain assignment makes the flag describe the right-hand segment only, and the "
+                 "insertion order of linesort then decides on which side of a fixed segment a one-sidedly limited segment ends up", floor=2)
+    fn = prog.fn("Avoid::NudgingShiftSegment::fixedOrder")
+    pname = fn.params[0]["name"]
+    r.count()
+    bad = None
+    k = 0
+    for lhs, node, op in writes(fn):
+        if norm(lhs) != pname:
+            continue
+        k += 1
+        rhs = norm(node["ch"][1]) if len(node.get("ch", [])) > 1 else ""
+        if op == "=" and literal_value(node["ch"][1]) == "true":
+            continue
+        if op == "|=":
+            continue
+        if op == "=" and re.match(r"^\(?%s \|\| " % re.escape(pname), rhs):
+            continue
+        bad = bad or (fn.loc(node), "`%s %s %s` can lower the flag that the comparator shares between its two calls" % (pname, op, rhs[:60]))
+    if k == 0:
+        raise AnalysisBroken("fixedOrder no longer writes its out-parameter")
+    (r.bad("fixedOrder only raises the flag", bad[0], bad[1]) if bad else r.ok("fixedOrder only raises the flag", fn.where(), "%d store(s)" % k))
+    cands = [f for f in prog.all_functions() if f.q == "Avoid::CmpLineOrder::operator()" and f.body is not None]
+    if len(cands) != 1:
+        raise AnalysisBroken("CmpLineOrder::operator() not found")
+    cmpf = cands[0]
+    cs = [c for c in calls(cmpf) if c.get("cname") == "Avoid::NudgingShiftSegment::fixedOrder"]
+    r.count()
+    bad = None
+    if len(cs) != 2:
+        bad = "expected two fixedOrder calls (lhs, rhs), found %d" % len(cs)
+    else:
+        flags = {norm(call_args(c)[0]) for c in cs}
+        objs = sorted(norm(call_object(c)) for c in cs)
+        decl = [n for n in cmpf.nodes() if n.get("k") == "VarDecl" and n.get("name") in flags]
+        if len(flags) != 1:
+            bad = "the two calls use different flags %s but the test below reads one" % sorted(flags)
+        elif objs != ["lhs", "rhs"]:
+            bad = "fixedOrder is called on %s, not on lhs and rhs" % objs
+        elif not decl or literal_value(decl[0].get("init")) != "false":
+            bad = "the shared flag is not initialised to false"
+    (r.bad if bad else r.ok)("comparator shares one flag", cmpf.where(), bad or "")
+
+
 def run(chk):
     prog = chk.load()
     cg = CallGraph(prog)
@@ -485,6 +533,7 @@ def run(chk):
     rule_region_closure(chk, prog)
     rule_pairwise_stateless(chk, prog)
     rule_settings_dirty(chk, prog)
+    rule_fixed_flag(chk, prog)
     from ..rules import mirrors
     r = chk.rule("MIRROR", "NudgingShiftSegment::lowC/highC and the scan-line helpers firstObstacleAbove/Below, markShiftSegmentsAbove/Below "
                  "stay exact mirror images (tables/mirrors.json)", floor=3)
